@@ -45,6 +45,8 @@ fn take_wakes() -> Vec<usize> {
     WAKE_LOG.with(|l| std::mem::take(&mut *l.borrow_mut()))
 }
 
+thread_local! { pub static TRACE_OPS: std::cell::Cell<bool> = std::cell::Cell::new(false); }
+
 // ---------------------------------------------------------------- rng
 pub struct Rng(u64);
 impl Rng {
@@ -169,6 +171,9 @@ impl<W: World> Runner<W> {
     pub fn step(&mut self, op: &str) -> String {
         let toks: Vec<&str> = op.split_whitespace().collect();
         self.step += 1;
+        if TRACE_OPS.with(|t| t.get()) {
+            eprintln!("OP {}", op);
+        }
         let _ = take_wakes();
         // statistics about cancellations
         if toks.first() == Some(&"dropfut") {
@@ -276,11 +281,14 @@ impl<W: World> Runner<W> {
 }
 
 // ---------------------------------------------------------------- drivers
-fn run_random<W: World>(mk: &dyn Fn() -> W, seed: u64, count: usize, len: usize, monitors: bool, out: &mut dyn Write) -> (Stats, Vec<(usize, String, String)>, usize) {
+fn run_random<W: World>(mk: &dyn Fn() -> W, seed: u64, count: usize, len: usize, monitors: bool, out: &mut dyn Write, skip: usize) -> (Stats, Vec<(usize, String, String)>, usize) {
     let mut total = Stats::default();
     let mut viols = Vec::new();
     let mut nontrivial = 0;
-    for h in 0..count {
+    for h in skip..count {
+        if TRACE_OPS.with(|t| t.get()) {
+            eprintln!("HIST {}", h);
+        }
         let mut rng = Rng::new(seed.wrapping_mul(1_000_003).wrapping_add(h as u64));
         let mut r = Runner::new(mk(), monitors);
         let l = 4 + rng.below(len.max(5) - 4);
@@ -297,11 +305,13 @@ fn run_random<W: World>(mk: &dyn Fn() -> W, seed: u64, count: usize, len: usize,
         for l in &r.out {
             writeln!(out, "{}", l).unwrap();
         }
+        out.flush().unwrap();
         if r.stats.pendings > 0 && r.stats.wakes > 0 {
             nontrivial += 1;
         }
         add_stats(&mut total, &r.stats);
         for (p, m) in r.violations.drain(..) {
+            eprintln!("MONITOR {} hist={} {}", p, h, m);
             viols.push((h, p, m));
         }
     }
@@ -354,11 +364,13 @@ fn run_enum<W: World>(mk: &dyn Fn() -> W, depth: usize, monitors: bool, out: &mu
             for l in &r.out {
                 writeln!(out, "{}", l).unwrap();
             }
+            out.flush().unwrap();
             if r.stats.pendings > 0 && r.stats.wakes > 0 {
                 nontrivial += 1;
             }
             add_stats(&mut total, &r.stats);
             for (p, m) in r.violations.drain(..) {
+                eprintln!("MONITOR {} hist={} {}", p, hist, m);
                 viols.push((hist, p, m));
             }
             hist += 1;
@@ -389,8 +401,10 @@ fn run_replay<W: World>(mk: &dyn Fn(&str) -> W, text: &str, monitors: bool, out:
                 for l in &r.out {
                     writeln!(out, "{}", l).unwrap();
                 }
+                out.flush().unwrap();
                 add_stats(&mut total, &r.stats);
                 for (p, m) in r.violations.drain(..) {
+                    eprintln!("MONITOR {} hist={} {}", p, hist, m);
                     viols.push((hist, p, m));
                 }
                 hist += 1;
@@ -425,6 +439,10 @@ fn main() {
     let limit: usize = arg(&args, "--limit").and_then(|s| s.parse().ok()).unwrap_or(usize::MAX);
     let param: usize = arg(&args, "--param").and_then(|s| s.parse().ok()).unwrap_or(2);
     let monitors = !args.iter().any(|a| a == "--no-monitors");
+    let skip: usize = arg(&args, "--skip").and_then(|s| s.parse().ok()).unwrap_or(0);
+    if args.iter().any(|a| a == "--trace-ops") {
+        TRACE_OPS.with(|t| t.set(true));
+    }
     let outpath = arg(&args, "--out").map(|s| s.to_string());
     let mut out: Box<dyn Write> = match &outpath {
         Some(p) => Box::new(std::io::BufWriter::new(std::fs::File::create(p).unwrap())),
@@ -437,7 +455,7 @@ fn main() {
         ($mk:expr, $mkh:expr) => {{
             match mode {
                 "gen" => {
-                    let (st, v, nt) = run_random(&$mk, seed, count, len, monitors, &mut *out);
+                    let (st, v, nt) = run_random(&$mk, seed, count, len, monitors, &mut *out, skip);
                     report(&prim, count, nt, &st, &v);
                 }
                 "enum" => {
@@ -471,7 +489,4 @@ fn report(prim: &str, hist: usize, nontrivial: usize, st: &Stats, v: &[(usize, S
         "STATS prim={} histories={} nontrivial={} ops={} pendings={} wakes={} readies={} cancels_pending={} cancels_woken={} done_kept={} settles={} max_settle={} starved={} violations={}",
         prim, hist, nontrivial, st.ops, st.pendings, st.wakes, st.readies, st.cancels_pending, st.cancels_woken, st.done_kept, st.settles, st.max_settle, st.starved, v.len()
     );
-    for (h, p, m) in v.iter().take(50) {
-        eprintln!("MONITOR {} hist={} {}", p, h, m);
-    }
 }
